@@ -4,19 +4,15 @@
    porepy/grids/grid_extrusion.py:extrude_grid); proofs: PP.Proofs.C23. *)
 From Coq Require Import List ZArith QArith Qabs Arith Lia.
 Import ListNotations.
-From PP Require Import Model.C23 Proofs.C23.
+From PP Require Import Model.C23 Proofs.C23 Proofs.C23_refine1d.
 Close Scope Q_scope.
 
 (* refine_grid_1d, one cell.  For every ratio r >= 1 and every cell (a, b) in 3-space the r
    children tile the cell: the first starts at a, the last ends at b, consecutive
    children share their end point, every child vector is exactly (b - a)/r (so the
    lengths add up to the parent's), and every child end point is a convex combination
-   of a and b (children lie inside the parent).
-   _partial: stated for the per-cell children; that the node bookkeeping of
-   refine_grid_1d (shared nodes looked up in old_2_new_nodes) yields exactly these
-   children, cell by cell, is checked by Coq on every generated case (exact Q,
-   [agree_refine1d]) but not proved for all inputs. *)
-Theorem C23_refine_1d_partial :
+   of a and b (children lie inside the parent). *)
+Theorem C23_refine_1d_children :
   forall (r : nat) (a b : v3),
   1 <= r ->
   length (children r a b) = r /\
@@ -31,7 +27,24 @@ Theorem C23_refine_1d_partial :
      let ch := nth i (children r a b) (vzero, vzero) in
      between a b (fst ch) /\ between a b (snd ch)).
 Proof. exact refine_1d_children. Qed.
-Print Assumptions C23_refine_1d_partial.
+Print Assumptions C23_refine_1d_children.
+
+(* refine_grid_1d, the whole function (node bookkeeping included: old nodes are added at
+   their first occurrence and looked up in old_2_new_nodes afterwards, interior nodes are
+   appended cell by cell).  For every node array, every list of cells (any node
+   numbering, shared nodes or not) and every ratio r >= 1: decoding the returned
+   cell-face indices against the returned node array gives, cell by cell and in order,
+   exactly the children of the old cells (coordinates equal in Q); all indices are valid
+   and there are two per new cell. *)
+Theorem C23_refine_1d_grid :
+  forall (nodes : list v3) (cells : list (nat * nat)) (r : nat),
+  1 <= r ->
+  let '(x, ind, sg) := refine_grid_1d nodes cells r in
+  Forall2 peq (cell_ends x ind) (refine_spec nodes cells r) /\
+  Forall (fun j => j < length x) ind /\
+  length ind = 2 * (length cells * r).
+Proof. exact refine_grid_1d_cells. Qed.
+Print Assumptions C23_refine_1d_grid.
 
 (* refine_grid_1d, cell map: the refined grid lists the children cell by cell; new cell
    k*r + i is child i of old cell k, and j -> j / r is a total map onto the old cells. *)
